@@ -297,9 +297,15 @@ reclaim_data(struct cache *cache, struct cache_search *cs)
 	void *data;
 
 	if (cache->nprec + cache->nprobe + cache->ninflight < cache->cap) {
-		/* Get an entry from the unused partition. */
+		/* Get an entry from the unused partition. Unused entries
+		 * with data are kept together at the ghost probe end of
+		 * the partition (get_missed_entry expects data in the
+		 * last unused entry while any is left). Take the one
+		 * farthest from that end, so the rest stay contiguous.
+		 */
 		unsigned eprobe = cs->gprobe;
-		unsigned n = cache->ngprobe;
+		unsigned n = cache->ngprobe + cache->cap - 1 -
+			(cache->nprec + cache->nprobe + cache->ninflight);
 		while (n--)
 			eprobe = cache->ce[eprobe].prev;
 		entry = &cache->ce[eprobe];
